@@ -414,7 +414,8 @@ pub fn serializer_string(op: SerOp, s: &str, options: &crate::Options<'_>, map: 
 }
 
 pub fn serializer_float(f: f64, options: &crate::Options<'_>, map: &codemap::CodeMap, span: Span) -> Vec<u8> {
-    let mut ser = Serializer::verif_with_buffer(options, map, span, Vec::new());
+    // pre-sized so that the write does not allocate with a data-dependent size
+    let mut ser = Serializer::verif_with_buffer(options, map, span, Vec::with_capacity(32));
     ser.verif_write_float(f);
     ser.verif_buffer()
 }
